@@ -83,5 +83,13 @@ def rule_reuse_first(fx, col):
         good = bool(wr) and bool(pubs) and all(ab.pos_dominates((bb, i), ab.term_pos(p.bb)) for bb, i, _ in wr for p in pubs)
         # and next := the expected head of the exchange
         same = bool(wr) and bool(pubs) and all(ab.origins(st['rv'].get('op')) == ab.origins(p.arg(1)) for _, _, st in wr for p in pubs)
-        col.add('REUSE-FIRST', '%s|next = expected head' % fn, good and same, 'node.next is set to the head the exchange expects, before the exchange')
+        # a retried exchange expects a *new* head: the link must be re-written in every retry iteration
+        in_iter = True
+        for p in pubs:
+            for h, bl, tl in ab.loops():
+                if p.bb in bl:
+                    in_iter = in_iter and all(bb in bl for bb, _, _ in wr)
+        col.add('REUSE-FIRST', '%s|next = expected head' % fn, good and same and in_iter,
+                'node.next is set to the head the exchange expects, before the exchange' + ('' if in_iter else
+                ' — but NOT inside the retry loop: after a failed exchange the new expected head is no longer what next points to (nodes added in between are unlinked)'))
     # init makes space_offer point at the own envelope: ENVELOPE-PROVENANCE checks the value
